@@ -25,7 +25,7 @@ ASSUMPTIONS = [
 ]
 REQUIRED_CLASSES = {"all": ["path:factory", "path:new_record", "path:add_record", "path:update", "path:add_bundle", "path:ctor",
                             "path:json", "path:xml", "path:unified", "path:flattened", "lookup:qn", "lookup:str", "lookup:bare",
-                            "lookup:uri", "lookup:absent", "lookup:multi"]}
+                            "lookup:uri", "lookup:absent", "lookup:multi", "call:unified", "call:graph"]}
 SHRINK_CAP = {"quick": 400, "thorough": 2000}
 
 NS_A, NS_D = "http://a/", "http://d.org/"
@@ -90,6 +90,14 @@ def _spellings(c, ns, local, ctx):
 
 
 def scan(c, items, ctx, s=None):
+    # lookups under spellings that are NOT bound right now (no claim on their result): a later binding - a default
+    # namespace adopted through update(), a namespace registered on the parent - must still be honoured afterwards
+    for ns, local in POOL[:2]:
+        for x in (local, "zz9:" + local, "dd:" + local):
+            try:
+                c.get_record(x)
+            except Exception:  # noqa - e.g. invalid name: no claim
+                pass
     recs = c.get_records()
     # records / get_records() are independent copies
     for getter in ("records", "get_records"):
@@ -201,6 +209,29 @@ def apply(s, op, ctx):
             ctx.count("path:add_bundle")
         except ProvException:
             ctx.count("add_bundle:duplicate")
+    elif code == "call":
+        # operations documented as read-only / deriving, called WITHOUT adopting their result: the source's index and
+        # order must be what they were
+        from prov.graph import prov_to_graph
+        src = s.main if op[2] % 2 == 0 else s.other
+        how = op[1]
+        try:
+            if how == "unified":
+                src.unified()
+                for b in src.bundles:
+                    b.unified()
+            elif how == "flattened":
+                src.flattened()
+            elif how == "graph":
+                prov_to_graph(src)
+            elif how == "provn":
+                src.get_provn()
+            elif how == "json":
+                src.serialize(format="json")
+        except ProvException:
+            ctx.count("call:refused")
+        ctx.count("call:" + how)
+        s.paths.add("call")
     elif code == "derive":
         how = op[1]
         which = op[2] % 2
@@ -264,6 +295,10 @@ def make_machine(Base):
         @rule(how=st.sampled_from(["unified", "flattened", "ctor", "json", "xml"]), which=st.integers(0, 1))
         def derive(self, how, which):
             self.do(["derive", how, which])
+
+        @rule(how=st.sampled_from(["unified", "unified", "flattened", "graph", "provn", "json"]), which=st.integers(0, 1))
+        def call_and_discard(self, how, which):
+            self.do(["call", how, which])
 
     return IndexCoherence
 
